@@ -900,7 +900,7 @@ int cms_digest_algors_from_der(int *digest_algors, size_t *digest_algors_cnt, si
 
 	*digest_algors_cnt = 0;
 	while (dlen) {
-		if (*digest_algors_cnt > max_digest_algors) {
+		if (*digest_algors_cnt >= max_digest_algors) {
 			error_print();
 			return -1;
 		}
